@@ -12,6 +12,8 @@ import Lumina.Spec.C22
 
     open
     insert hs=a1^-,a2^a1,a3^a2          header name ^ parent name (`-` = none), ascending heights
+    insert hs=_                         (S9) the empty batch
+    insert hs=a9^a8,a10!a5^a9           (S9) `base!hashof`: unvalidated copy of `base` carrying the hash of `hashof`
     mark h=3 | meta h=3 cids=1,2 | remove h=3
     crash ep=<sync epoch> k=<events of that epoch issued> mask=<all|none|hdr|nohdr|last|butlast|seed> n=<ops returned> sig=<log signature> vis=<0|1>
     crashgo …same fields as crash…   (multi-crash: crash, reopen, and the history CONTINUES on the recovered database)
@@ -21,7 +23,8 @@ import Lumina.Spec.C22
   Results:  ok <dump> tr=<shape> | err <Kind> <dump> tr=<shape> | reopen ok <dump> api=ok | reopen err <why>
   shape  :  the backend write/sync trace of the operation as the redb commit-protocol model
             (`Model/RedbCommit.lean`, S5) prescribes it: `PHS` = data pages and ONE header write,
-            then one `sync_data` (one-phase commit); `-` = nothing (aborted transaction)
+            then one `sync_data` (one-phase commit); `HS` = a commit that dirtied no page (S9: the
+            empty batch); `-` = nothing (aborted transaction)
   dump   :  ver=<3|none> id=<none|id1|idnew> hdr=<h:name^parent,…|_> hts=<name:h,…|_> st=<R> sa=<R> pr=<R> meta=<h:c.c,…|_>
   R      :  a-b.c-d | _
 
@@ -70,11 +73,16 @@ def showSt (st : St) : String :=
 
 def heightOfName (name : String) : Option Nat := (name.drop 1).toString.toNat?
 
+/-- `name^parent`; (S9) `base!hashof^parent` = an unvalidated copy of header `base` (its height, its
+    parent link) whose hash — the key of STORE.HEIGHTS, `name` in the model — is that of `hashof` -/
 def parseHdrs (s : String) : Option (List Hdr) :=
   if s == "_" then some []
   else (s.splitOn ",").mapM (fun e =>
     match e.splitOn "^" with
-    | [n, p] => (heightOfName n).map (fun h => { height := h, name := n, parent := p })
+    | [n, p] =>
+      match n.splitOn "!" with
+      | [base, hashof] => (heightOfName base).map (fun h => { height := h, name := hashof, parent := p })
+      | _ => (heightOfName n).map (fun h => { height := h, name := n, parent := p })
     | _ => none)
 
 def parseRuns (s : String) : Option (List Nat) :=
@@ -140,11 +148,14 @@ def opOfLine (ws : List String) : Option (Op St Err) :=
     writes, `H` if it has header-region writes (redb's ONE 320-byte header write is the model's
     three region writes; the write buffer coalesces the two header versions of a one-phase
     commit into the last one), then `S` (the `sync_data`). -/
-def commitShape (twoPhase : Bool) : String :=
+def commitShape (twoPhase : Bool) (dirty : Bool := true) : String :=
   let H : Lumina.Model.RedbCommit.Sums Unit Unit := ⟨fun _ => (), fun _ _ => ()⟩
   let d : Lumina.Model.RedbCommit.Disk Unit Unit :=
     { primary := false, twoPhase := false, slots := fun _ => ⟨0, [], ()⟩, pages := fun _ => ⟨(), []⟩ }
-  let pl : Lumina.Model.RedbCommit.Plan Unit Unit := { pages := [(1, ⟨(), []⟩)], roots := [], txid := 1 }
+  -- (S9) `dirty = false`: a transaction that touched no table (`insert` of the empty batch returns
+  -- `Ok(())` before it opens one): redb still commits it — no data page, the header, the sync
+  let pl : Lumina.Model.RedbCommit.Plan Unit Unit :=
+    { pages := if dirty then [(1, ⟨(), []⟩)] else [], roots := [], txid := 1 }
   String.join ((Lumina.Model.RedbCommit.commitEpochs H d pl twoPhase).map fun ep =>
     let ks := ep.map Lumina.Model.RedbCommit.Write.kind
     (if ks.contains .page then "P" else "") ++ (if ks.contains .header then "H" else "") ++ "S")
@@ -210,8 +221,10 @@ def step (ds : DS) (line : String) : DS × String :=
       -- `open` runs redb's `Database::create` as well: no trace shape for it.  lumina never
       -- asks for a two-phase commit; an aborted transaction writes nothing.
       let isOpen := ws.head? == some "open"
+      -- the only store operation whose closure succeeds without writing to a table
+      let dirty := !(ws.head? == some "insert" && (arg? ws "hs").bind parseHdrs == some [])
       let out := match res with
-        | .ok () => if isOpen then s!"ok {showSt cur'}" else s!"ok {showSt cur'} tr={commitShape false}"
+        | .ok () => if isOpen then s!"ok {showSt cur'}" else s!"ok {showSt cur'} tr={commitShape false dirty}"
         | .error e => if isOpen then s!"err {e.kind} {showSt cur'}" else s!"err {e.kind} {showSt cur'} tr=-"
       ({ states := ds.states ++ [cur'], cur := cur' }, out)
 
